@@ -17,7 +17,8 @@ fn judge_at(x: &Vec<u8>, t: &Vec<u8>, st: &mut Stats) -> Verdict {
         return Ok(());
     }
     st.eval();
-    let by_cr = first_cr(x).is_some();
+    // closed by its first CR and the byte behind it (as opposed to: by 107 CR-free bytes, whatever follows those)
+    let by_cr = first_cr(x).map_or(false, |p| p + 1 < x.len() && p < 107);
     if x.starts_with(b"PROXY") || (!by_cr && (x.len() == 107 || x.len() == 108)) {
         st.nontrivial(x.digest());
     }
@@ -77,6 +78,13 @@ fn judge_at(x: &Vec<u8>, t: &Vec<u8>, st: &mut Stats) -> Verdict {
     if by_cr && !t.is_empty() {
         let mut xt = x.clone();
         xt.extend_from_slice(t);
+        // what the previous connection may have sent: the same bytes with an ordinary character where this input has its
+        // first CR (if that is a well-formed line, the parser has just accepted a line of this very shape)
+        if let Some(p) = first_cr(x) {
+            let mut prev = xt.clone();
+            prev[p] = [b' ', b'1', b'x', b':'][(x.digest() % 4) as usize];
+            let _ = imp::v1_bytes(&prev);
+        }
         let r2 = imp::v1_bytes(&xt);
         if let (Ok(a), Ok(b)) = (&rb, &r2) {
             if a != b {
@@ -250,6 +258,28 @@ fn gen_case(t: &mut Tape) -> Pair {
             l
         }
         2 if t.chance(1, 4) => periodic_cr_free(t),
+        2 if t.chance(1, 4) => {
+            // 107 or more CR-free bytes, and only then a CR: as the very last byte supplied so far, or with LF / text behind it
+            let total = t.usize_in(107, 140);
+            let mut l = match t.below(3) {
+                0 => b"PROXY UNKNOWN ".to_vec(),
+                1 => b"PROXY TCP4 ".to_vec(),
+                _ => {
+                    let v = gen::gen_valid_line(t, true);
+                    v[..v.len() - 2].to_vec()
+                }
+            };
+            while l.len() < total {
+                l.push(if l.starts_with(b"PROXY TCP4 ") && l.len() < 30 { b'1' } else { b'a' + (l.len() % 26) as u8 });
+            }
+            l.push(b'\r');
+            match t.below(3) {
+                0 => {}
+                1 => l.push(b'\n'),
+                _ => l.extend_from_slice(b"\nGET / HTTP/1.1\r\n"),
+            }
+            l
+        }
         2 => {
             // CR-free inputs around the limit
             let total = t.usize_in(100, 120);
